@@ -37,6 +37,21 @@ NAMES = ["using", "finally_action", "do_finally", "do_on_dispose", "do_action", 
 FINALIZER = {"finally_action": FINALLY, "do_finally": FINALLY, "do_on_dispose": ON_DISPOSE}
 
 
+class _FalsyDisposable:
+    """a disposable whose truth value is False (like an empty CompositeDisposable); disposes once"""
+
+    def __init__(self, action):
+        self._action, self._done = action, False
+
+    def __len__(self):
+        return 0
+
+    def dispose(self):
+        if not self._done:
+            self._done = True
+            self._action()
+
+
 class ColdSource:
     """source k: logs subscribe/unsubscribe like k2m.MSource, and delivers `pre`
     synchronously inside subscribe() (Observable.create style)."""
@@ -145,11 +160,16 @@ def make_instance(name, p, raised, ColdSource=ColdSource):
                     return None
                 if rf != "res":
                     raise UserError(rf)
+                # half of the resources are FALSY disposables (an empty "disposable bag" defines __len__ == 0):
+                # using() must adopt them all the same
+                rc = getattr(env, "_res_made", 0)      # per run: the first resource is falsy, then alternating
+                env._res_made = rc + 1
+                made = Disposable if (rc % 2) else _FalsyDisposable
                 if hasattr(env, "res_effect"):          # run_plan: resources are numbered in creation order
                     rid = env.new_resource()
-                    return Disposable(lambda: env.res_effect(RELEASED, rid))
+                    return made(lambda: env.res_effect(RELEASED, rid))
                 env.effect(CREATED)
-                return Disposable(lambda: env.effect(RELEASED))
+                return made(lambda: env.effect(RELEASED))
 
             def observable_factory(resource):
                 if obf != "ok":
